@@ -1,5 +1,5 @@
 //@unit sm9_limbs
-//@serves C09 C10 C13 C14 C16 C17
+//@serves C09 C10 C13 C14 C16 C17 C20
 //@source gm-sm9/src/u256.rs
 //@assume byteorder::{ReadBytesExt, WriteBytesExt} on std::io::Cursor / Vec<u8> behave as the model in section `spec` (big-endian fixed-width reads/writes; Err iff fewer bytes remain)
 //@include-spec sm2_math
@@ -559,7 +559,7 @@ fn u256_to_be_bytes(a: &U256) -> (ret: Vec<u8>)
 }
 
 fn u256_from_be_bytes(input: &[u8]) -> (elem: U256)
-    requires input@.len() >= 32
+    requires input@.len() >= 32 //@carveout D40
     ensures val4(elem@) == be_val(input@.subrange(0, 32))
 {
     let mut elem = [0, 0, 0, 0];
